@@ -125,6 +125,23 @@ def run_R(chk, prop, tier):
         b = beh[len(beh) // 2]
         chk.sample({"routing_history": [[s["op"], s["t"], s["c"], s["out"]] for s in b["steps"]],
                     "dest_after_last_step[thread][ctx]": b["steps"][-1]["dest"]})
+    # concurrent guard drops: histories in which two runtimes' guards are dropped one after the other are
+    # executed again with the two drops made at the same time on two threads and with runtime test sinks
+    # whose destructors take 10 us .. 50 ms (they run while the global's runtime-sink map is locked); the
+    # routing expected after the second drop, the re-installs and the leak check are the oracle as before
+    def adjacent_drops(b):
+        st = b["steps"]
+        return any(st[i]["op"] == "DropRT" and st[i + 1]["op"] == "DropRT" and st[i]["c"] != st[i + 1]["c"]
+                   for i in range(len(st) - 1))
+    par = []
+    for rep in range(4 if tier == "quick" else 3):
+        for b in beh:
+            if adjacent_drops(b):
+                par.append(dict(b, id=2_000_000 + len(par), pardrop=True))
+    if par:
+        res = run_replay(chk, par, "pardrop")
+        judge_replay(chk, prop, par, res, "concurrent-drop")
+        chk.extra["concurrent_guard_drop_runs"] = sum(r.get("concurrent_guard_drops", 0) for r in res.values())
     # walks with explicit append / try_append / sink() operations
     num = 40 if tier == "quick" else 1500
     depth = 24
@@ -151,8 +168,23 @@ def run_R(chk, prop, tier):
 def gen_races(rng, n):
     out = []
     for i in range(n):
-        kind = rng.choice(["hammer", "hammer", "hammer", "detach", "reattach", "contend", "contend3"])
+        kind = rng.choice(["hammer", "hammer", "hammer", "detach", "reattach", "contend", "contend3", "slowdetach", "slowdetach", "slowdetach"])
         napp = rng.randint(2, 4)
+        if kind == "slowdetach":
+            # the detached queue has a backlog and a slow stream: its shutdown takes milliseconds, during which
+            # appenders (try_append), observers (is_attached) and a replacement attach must not see it gone
+            slow = rng.choice([100, 200, 400])
+            hold = rng.choice([800, 1500, 2500])
+            n_e = rng.randint(25, 45)
+            pace = rng.choice([20, 40, 80])
+            ctls = [{"sink": 1, "delay_us": 0, "hold_us": hold}]
+            if rng.random() < 0.6:
+                ctls.append({"sink": 2, "delay_us": hold + rng.choice([100, 500, 1500]), "hold_us": rng.choice([300, 1000])})
+            out.append({"id": i + 1, "kind": kind, "appenders": min(napp, 3), "n": n_e, "pace_us": pace, "ctls": ctls,
+                        "permille": 0, "max_us": 0, "flush_us": rng.choice([1000, 20000]), "slow_us": slow,
+                        "observers": rng.randint(0, 2), "obs_n": 40, "obs_pace_us": rng.choice([50, 150]),
+                        "seed": rng.randrange(1 << 30)})
+            continue
         if kind == "hammer":
             # appenders never pause and (schedule perturbation at the hook between lookup and append) spend most
             # of their time between looking the sink up and appending to it, while the handle is dropped
